@@ -234,6 +234,15 @@ def flux_bindown(ix, R):
         for e_ in fl.of('assign'):
             if isinstance(e_.value, RF) and not e_.loops and tab.equal(spec(fl, 'X[1:]', {'X': e_.value}), omin1):
                 omin, sl_lo, sl_hi = e_.value, tab.const(1), None
+    carried = [fmt(fl, x)[:80] for x in (ss[0].args[0], ss[1].args[0]) if x.mentions(lambda a: a.head == 'phi')]
+    if carried:
+        # the searched array changes from one target bin to the next: the window of a bin then depends on the bins
+        # visited before it (only valid if the targets' edges are monotone, which overlapping targets are not)
+        R.fail('3b.search', 'ARG', site,
+               'each target bin searches the whole array of native edges (the window of a bin does not depend on the other bins)',
+               'search operand carried between bins: %s' % carried,
+               'searchsorted runs on %s, which depends on the previous target bin' % carried, f.loc(ss[0].node))
+        raise AnalysisError('window search is carried between target bins; remaining obligations not evaluated')
     if omin is None:
         raise AnalysisError('second searchsorted operand is not a [1:] slice of an array computed before the loop')
     b.update(omin=omin, omax=omax, s=win.lo, e1=win.hi)
